@@ -193,7 +193,7 @@ def run(c, facts, tier):
     # premises discharging ErrMode::assert: progress (shared with C03.progress) and ascending ranges
     nrep, bad = 0, []
     for fn in facts.nontest_fns():
-        if fn.module[:1] != ("find_parser",):
+        if fn.module[:1] != ("find_parser",) or fn.key in b.template_fns():
             continue
         try:
             fb = b.fn_ir(fn.key)
